@@ -31,9 +31,11 @@ import (
 	"context"
 	"encoding/json"
 	"fmt"
+	"io"
 	"sort"
 	"strings"
 	"testing"
+	"time"
 
 	"github.com/titpetric/vuego"
 	"golang.org/x/net/html"
@@ -97,11 +99,11 @@ func avoidKnown(rec *ev.Rec, c *Case, openRoot, openTail bool) {
 		return
 	}
 	maxReached, maxArrived := map[int]int{}, map[int]int{}
-	for _, s := range c.Steps {
-		if fails(c, s) {
-			continue
+	forHistory(c, func(_ int, s Step, src int, broken bool) {
+		if s.Op != "" || fails(c, s, src, broken) {
+			return
 		}
-		for _, l := range expect(c, s).ls {
+		for _, l := range expect(c, s, src).ls {
 			for m, n := range l.reached {
 				if n > maxReached[m] {
 					maxReached[m] = n
@@ -113,7 +115,7 @@ func avoidKnown(rec *ev.Rec, c *Case, openRoot, openTail bool) {
 				}
 			}
 		}
-	}
+	})
 	eachOnce(c, func(it *Item, comp string) {
 		if openRoot && it.Ch == "tpl" && comp != "" && indexOf(c.Bare, comp) >= 0 && maxReached[it.M] >= 2 {
 			it.Ch = ""
@@ -227,28 +229,72 @@ type Step struct {
 	// ends with the former ("layout"; only takes effect when a layout is rendered). A failing step
 	// must return an error (nothing else is asserted about it); the steps after it must be
 	// unaffected ("every render starts afresh").
+	//
+	// Two more ways to cut a call short leave the page as it is: "writer" renders into a destination
+	// writer that fails (every entry must report an error), "cancel" (string entries only) cancels
+	// the context from a template function called at the end of the page.
 	Boom string `json:"boom,omitempty"`
+	// Keep (string entries): the string is rendered on ONE long-lived Template object of the case,
+	// re-Filled before every call, instead of a fresh tpl.New() per call.
+	Keep bool `json:"keep,omitempty"`
+	// Op makes the step a change of the site instead of a render (Entry is ignored):
+	//   "put":    the file of page P is rewritten with the content of page Src (another VERSION of it)
+	//   "break":  the file of page P is rewritten with malformed front matter
+	//   "remove": the file of page P is removed
+	// Afterwards file-based renders of P (load, file, vue, frag, nodes) meet the new version, or fail
+	// while it is broken / missing; string entries and xnodes render the body of the current version.
+	Op  string `json:"op,omitempty"`
+	Src int    `json:"src,omitempty"`
 }
 
-var booms = []string{"filter", "include", "layout"}
+var booms = []string{"filter", "include", "layout", "writer", "cancel"}
+
+func fileBased(e string) bool {
+	return e == "load" || e == "file" || e == "vue" || e == "frag" || e == "nodes"
+}
+
+// forHistory walks the steps, keeping track of which version every page file holds (src) and whether
+// it is broken; fn sees every step with the state BEFORE the step.
+func forHistory(c *Case, fn func(i int, s Step, src int, broken bool)) {
+	src := make([]int, len(c.Pages))
+	broken := make([]bool, len(c.Pages))
+	for i := range src {
+		src[i] = i
+	}
+	for i, s := range c.Steps {
+		fn(i, s, src[s.P], broken[s.P])
+		switch s.Op {
+		case "put":
+			src[s.P], broken[s.P] = s.Src, false
+		case "break", "remove":
+			broken[s.P] = true
+		}
+	}
+}
 
 const pageTail = `<p data-m="bf" v-if="boomf">{{ x | nosuchfilter }}</p>
 <div data-m="bi" v-if="boomi"><template include="missing.vuego"></template></div>
+<i data-m="bc" v-if="boomc">late {{ x }} {{ stop() }}</i>
 `
 const layoutTail = `<p data-m="bl" v-if="booml">{{ x | nosuchfilter }}</p>
 `
 
 // fails says whether the model expects step s to return an error.
-func fails(c *Case, s Step) bool {
-	switch s.Boom {
-	case "filter", "include":
+func fails(c *Case, s Step, src int, broken bool) bool {
+	if broken && fileBased(s.Entry) {
 		return true
+	}
+	switch s.Boom {
+	case "filter", "include", "writer":
+		return true
+	case "cancel":
+		return stringy(s.Entry)
 	case "layout":
 		if !layoutAware(s.Entry) {
 			return false
 		}
 		_, base := c.Layouts["base"]
-		return c.Pages[s.P].Layout != "" || base
+		return c.Pages[src].Layout != "" || base
 	}
 	return false
 }
@@ -558,14 +604,19 @@ func pageBody(i int, p Page) string {
 	return sb.String()
 }
 
+// pageFile is the content of a page file: front matter (layout) and body.
+func pageFile(i int, p Page) string {
+	fm := ""
+	if p.Layout != "" {
+		fm = "---\nlayout: " + p.Layout + "\n---\n"
+	}
+	return fm + pageBody(i, p)
+}
+
 func files(c Case) map[string]string {
 	out := map[string]string{}
 	for i, p := range c.Pages {
-		fm := ""
-		if p.Layout != "" {
-			fm = "---\nlayout: " + p.Layout + "\n---\n"
-		}
-		out[pageName(i)] = fm + pageBody(i, p)
+		out[pageName(i)] = pageFile(i, p)
 	}
 	for name, items := range c.Comps {
 		var sb strings.Builder
@@ -607,6 +658,7 @@ func data(s Step) map[string]any {
 		"n0": []int{}, "n1": []int{1}, "n2": []int{1, 2}, "n3": []int{1, 2, 3},
 		"t": true, "f": false, "x": 1,
 		"boomf": s.Boom == "filter", "boomi": s.Boom == "include", "booml": s.Boom == "layout",
+		"boomc": s.Boom == "cancel",
 	}
 }
 
@@ -871,7 +923,7 @@ func validate(c Case) error {
 		}
 	}
 	for _, s := range c.Steps {
-		if s.P < 0 || s.P >= len(c.Pages) || indexOf(entries, s.Entry) < 0 {
+		if s.P < 0 || s.P >= len(c.Pages) || (s.Op == "" && indexOf(entries, s.Entry) < 0) {
 			return fmt.Errorf("bad step %+v", s)
 		}
 		if s.On != "" {
@@ -880,6 +932,19 @@ func validate(c Case) error {
 			}
 		}
 		if s.Boom != "" && indexOf(booms, s.Boom) < 0 {
+			return fmt.Errorf("bad step %+v", s)
+		}
+		if (s.Boom == "cancel" || s.Keep) && !stringy(s.Entry) {
+			return fmt.Errorf("bad step %+v", s)
+		}
+		switch s.Op {
+		case "":
+		case "put":
+			if s.Src < 0 || s.Src >= len(c.Pages) {
+				return fmt.Errorf("bad step %+v", s)
+			}
+		case "break", "remove":
+		default:
 			return fmt.Errorf("bad step %+v", s)
 		}
 	}
@@ -1101,11 +1166,12 @@ type expectation struct {
 	emitted map[string]int // marker id -> occurrences in the final output
 }
 
-func expect(c *Case, s Step) expectation {
+// expect models the render of step s when the file of page s.P holds version src.
+func expect(c *Case, s Step, src int) expectation {
 	var e expectation
-	p := c.Pages[s.P]
+	p := c.Pages[src]
 	l := newLink(c)
-	fmt.Fprintf(&l.sb, "pg%d()", s.P)
+	fmt.Fprintf(&l.sb, "pg%d()", src)
 	l.walk(p.Ph) // a slot template that is not inside an include tag renders its children in place
 	l.walk(p.Pf)
 	l.walk(p.Items)
@@ -1160,33 +1226,95 @@ func countIDs(outline string) map[string]int {
 // ---------------------------------------------------------------------------------------------
 // check
 
-func renderStep(tpl vuego.Template, vue *vuego.Vue, c *Case, s Step, fsys *memfs.FS, parsed map[int][]*html.Node) (string, error) {
-	var buf bytes.Buffer
-	ctx := context.Background()
+// engine is what lives through a whole history.
+type engine struct {
+	fsys   *memfs.FS
+	tpl    vuego.Template // the base template of the site
+	kept   vuego.Template // ONE long-lived child for the string entries with Keep
+	vue    *vuego.Vue
+	parsed map[int][]*html.Node // nodes entry: the caller's parsed page, reused
+	stop   func()               // what the template function stop() does during the running step
+	writes int                  // file versions written so far (they get increasing mtimes)
+}
+
+func newEngine(c *Case) *engine {
+	e := &engine{fsys: memfs.FromMap(files(*c)), parsed: map[int][]*html.Node{}}
+	// stop() lets a render cancel its own context late in the page (Boom "cancel")
+	e.tpl = vuego.NewFS(e.fsys, vuego.WithFuncs(vuego.FuncMap{"stop": func() string {
+		if e.stop != nil {
+			e.stop()
+		}
+		return ""
+	}}))
+	e.kept = e.tpl.New()
+	e.vue = vuego.NewVue(e.fsys)
+	return e
+}
+
+// failingWriter is a destination that cannot be written to (Boom "writer").
+type failingWriter struct{}
+
+func (failingWriter) Write(p []byte) (int, error) { return 0, fmt.Errorf("destination is full") }
+
+// apply performs a site change step.
+func (e *engine) apply(c *Case, s Step) {
+	e.writes++
+	mt := time.Unix(int64(2000+e.writes), 0)
 	name := pageName(s.P)
+	delete(e.parsed, s.P)
+	switch s.Op {
+	case "put":
+		e.fsys.Write(name, pageFile(s.Src, c.Pages[s.Src]), mt)
+	case "break":
+		e.fsys.Write(name, "---\nlayout: [unclosed\n  : : bad\n---\n<b>broken</b>\n", mt)
+	case "remove":
+		e.fsys.Remove(name)
+	}
+}
+
+func renderStep(e *engine, c *Case, s Step, src int, brokenOn bool) (string, error) {
+	tpl, vue, fsys, parsed := e.tpl, e.vue, e.fsys, e.parsed
+	var buf bytes.Buffer
+	var w io.Writer = &buf
+	if s.Boom == "writer" {
+		w = failingWriter{}
+	}
+	ctx := context.Background()
+	e.stop = nil
+	if s.Boom == "cancel" {
+		cctx, cancel := context.WithCancel(ctx)
+		defer cancel()
+		ctx, e.stop = cctx, cancel
+	}
+	name := pageName(s.P)
+	body := pageBody(src, c.Pages[src])
 	var err error
-	// receiver of the string entries: a fresh copy of the engine's template, or one loaded from a file
+	// receiver of the string entries: the kept object, a fresh copy of the engine's template, or one
+	// loaded from a file
 	recv := func() vuego.Template {
-		if s.On != "" {
+		if s.Keep {
+			return e.kept
+		}
+		if s.On != "" && !brokenOn {
 			return tpl.Load(s.On)
 		}
 		return tpl.New()
 	}
 	switch s.Entry {
 	case "load":
-		err = tpl.Load(name).Fill(data(s)).Render(ctx, &buf)
+		err = tpl.Load(name).Fill(data(s)).Render(ctx, w)
 	case "file":
-		err = tpl.New().Fill(data(s)).RenderFile(ctx, &buf, name)
+		err = tpl.New().Fill(data(s)).RenderFile(ctx, w, name)
 	case "vue":
-		err = vue.Render(&buf, name, data(s))
+		err = vue.Render(w, name, data(s))
 	case "frag":
-		err = vue.RenderFragment(&buf, name, data(s))
+		err = vue.RenderFragment(w, name, data(s))
 	case "string":
-		err = recv().Fill(data(s)).RenderString(ctx, &buf, pageBody(s.P, c.Pages[s.P]))
+		err = recv().Fill(data(s)).RenderString(ctx, w, body)
 	case "byte":
-		err = recv().Fill(data(s)).RenderByte(ctx, &buf, []byte(pageBody(s.P, c.Pages[s.P])))
+		err = recv().Fill(data(s)).RenderByte(ctx, w, []byte(body))
 	case "reader":
-		err = recv().Fill(data(s)).RenderReader(ctx, &buf, strings.NewReader(pageBody(s.P, c.Pages[s.P])))
+		err = recv().Fill(data(s)).RenderReader(ctx, w, strings.NewReader(body))
 	case "nodes":
 		nodes, ok := parsed[s.P]
 		if !ok {
@@ -1196,15 +1324,15 @@ func renderStep(tpl vuego.Template, vue *vuego.Vue, c *Case, s Step, fsys *memfs
 			}
 			parsed[s.P] = nodes
 		}
-		err = vue.RenderNodes(&buf, nodes, data(s))
+		err = vue.RenderNodes(w, nodes, data(s))
 	case "xnodes":
-		body := &html.Node{Type: html.ElementNode, Data: "body", DataAtom: atom.Body}
+		bodyEl := &html.Node{Type: html.ElementNode, Data: "body", DataAtom: atom.Body}
 		var nodes []*html.Node
-		nodes, err = html.ParseFragment(strings.NewReader(pageBody(s.P, c.Pages[s.P])), body)
+		nodes, err = html.ParseFragment(strings.NewReader(body), bodyEl)
 		if err != nil {
 			return "", fmt.Errorf("parse: %w", err)
 		}
-		err = vue.RenderNodes(&buf, nodes, data(s))
+		err = vue.RenderNodes(w, nodes, data(s))
 	default:
 		err = fmt.Errorf("unknown entry %q", s.Entry)
 	}
@@ -1285,21 +1413,33 @@ func check(c Case) error {
 	if err := validate(c); err != nil {
 		return fmt.Errorf("invalid case: %w", err)
 	}
-	fsys := memfs.FromMap(files(c))
 	// one engine for the whole history: the property is about renders that follow one another
-	tpl := vuego.NewFS(fsys)
-	vue := vuego.NewVue(fsys)
-	parsed := map[int][]*html.Node{}
+	eng := newEngine(&c)
+	srcs, brokens := make([]int, len(c.Steps)), make([]bool, len(c.Steps))
+	brokenFile := map[string]bool{}
+	forHistory(&c, func(i int, s Step, src int, broken bool) { srcs[i], brokens[i] = src, broken })
 	for i, s := range c.Steps {
-		exp := expect(&c, s)
-		out, err := renderStep(tpl, vue, &c, s, fsys, parsed)
+		src, broken := srcs[i], brokens[i]
+		if s.Op != "" {
+			eng.apply(&c, s)
+			brokenFile[pageName(s.P)] = s.Op != "put"
+			continue
+		}
+		exp := expect(&c, s, src)
+		out, err := renderStep(eng, &c, s, src, brokenFile[s.On])
 		at := fmt.Sprintf("step %d (page %s via %s)", i, pageName(s.P), s.Entry)
+		if src != s.P {
+			at = fmt.Sprintf("step %d (page file %s holding version pg%d via %s)", i, pageName(s.P), src, s.Entry)
+		}
+		if s.Keep {
+			at += " on the kept Template object"
+		}
 		if s.On != "" {
 			at = fmt.Sprintf("step %d (body of page %s via %s on a template loaded from %s)", i, pageName(s.P), s.Entry, s.On)
 		}
-		if fails(&c, s) {
+		if fails(&c, s, src, broken) {
 			if err == nil {
-				return fmt.Errorf("%s: the render was made to fail (%s) but returned no error", at, s.Boom)
+				return fmt.Errorf("%s: the render was made to fail (%s, broken file: %v) but returned no error", at, s.Boom, broken)
 			}
 			continue // nothing else is asserted about a failed render
 		}
@@ -1564,8 +1704,29 @@ func classify(c Case) (bool, []string) {
 	seenStep := map[Step]bool{}
 	failedBefore := map[int]bool{}
 	anyFailed := false
+	srcs, brokens := make([]int, len(c.Steps)), make([]bool, len(c.Steps))
+	forHistory(&c, func(i int, s Step, src int, broken bool) { srcs[i], brokens[i] = src, broken })
+	versionChanged := map[int]bool{}
 	for i, s := range c.Steps {
-		if fails(&c, s) {
+		src, broken := srcs[i], brokens[i]
+		if s.Op != "" {
+			set["site-change="+s.Op] = true
+			versionChanged[s.P] = true
+			continue
+		}
+		if s.Keep {
+			set["string-entry-on-kept-template-object"] = true
+		}
+		if versionChanged[s.P] && fileBased(s.Entry) && !broken {
+			set["file-render-after-version-change"] = true
+			if failedBefore[s.P] {
+				set["file-render-of-restored-page-after-failed-load"] = true
+			}
+		}
+		if fails(&c, s, src, broken) {
+			if broken && fileBased(s.Entry) {
+				set["failing-step=broken-or-missing-file"] = true
+			}
 			set["failing-step="+s.Boom] = true
 			failedBefore[s.P] = true
 			anyFailed = true
@@ -1578,7 +1739,7 @@ func classify(c Case) (bool, []string) {
 		if anyFailed {
 			set["good-render-after-a-failed-render"] = true
 		}
-		e := expect(&c, s)
+		e := expect(&c, s, src)
 		pagesUsed[s.P] = true
 		entriesUsed[s.Entry] = true
 		if seenStep[s] {
@@ -1837,7 +1998,7 @@ func universe(fill []string, p uparams) Case {
 	E = append(E, g1...)
 	F := []Item{{K: "once", M: u.id(), Tag: "script", Ch: "tpl", Sp: (u.sp + 1) % len(spellings)}}
 	c := Case{
-		Pages:     []Page{{Items: P}, {Items: Q}},
+		Pages:     []Page{{Items: P}, {Items: Q}, {}}, // page 2: the PLAIN version of page 0 (no marked element)
 		Comps:     map[string][]Item{"A": A, "B": B, "C": C, "D": D, "E": E, "F": F},
 		Twins:     []string{"A"},
 		TwinStyle: p.twin,
@@ -1865,10 +2026,12 @@ func universe(fill []string, p uparams) Case {
 	case "l1":
 		c.Layouts["l1"] = mkL1("")
 		c.Pages[0].Layout = "l1"
+		c.Pages[2].Layout = "l1"
 	case "l1-l2":
 		c.Layouts["l1"] = mkL1("l2")
 		c.Layouts["l2"] = mkDoc()
 		c.Pages[0].Layout = "l1"
+		c.Pages[2].Layout = "l1"
 	case "base":
 		c.Layouts["base"] = mkDoc()
 	}
@@ -1876,28 +2039,60 @@ func universe(fill []string, p uparams) Case {
 }
 
 // historyFor renders page 0 twice through e with page 1 (through another entry) in between.
+// boomFor picks the way the i-th failing render of a history is made to fail.
+func boomFor(i int, entry string) string {
+	n := len(booms)
+	if !stringy(entry) {
+		n-- // "cancel" (last) is for the string entries
+	}
+	return booms[i%n]
+}
+
 func historyFor(k int, short bool) []Step {
 	e := entries[k%len(entries)]
 	o := entries[(k+3)%len(entries)]
+	// the string entries run on the kept Template object of the case, so that what an aborted call
+	// leaves on the object meets the next call
+	keep := stringy(e)
 	last := Step{P: 0, Entry: e}
 	if stringy(e) {
 		last.On = "components/A.vuego" // the string is rendered on a template object loaded from a file it includes
 	}
-	// page 0 twice, a failing render of it, page 0 again, the other page, a second failing render
-	// (other cause, other entry), page 0 once more
 	if short {
 		// sites with several marked elements (most of the enumeration): page 0, a failing render of it,
 		// page 0 again, the other page, page 0 once more
 		return []Step{
-			{P: 0, Entry: e}, {P: 0, Entry: e, Boom: booms[k%len(booms)]}, {P: 0, Entry: e},
+			{P: 0, Entry: e, Keep: keep}, {P: 0, Entry: e, Keep: keep, Boom: boomFor(k, e)}, {P: 0, Entry: e, Keep: keep},
 			{P: 1, Entry: o}, last,
 		}
 	}
+	// page 0 twice, a failing render of it, page 0 again, the other page, a second failing render
+	// (other cause; string entries: same object), page 0 once more
+	e2 := entries[(k+1)%len(entries)]
+	if keep {
+		e2 = e
+	}
 	return []Step{
-		{P: 0, Entry: e}, {P: 0, Entry: e},
-		{P: 0, Entry: e, Boom: booms[k%len(booms)]}, {P: 0, Entry: e},
+		{P: 0, Entry: e, Keep: keep}, {P: 0, Entry: e, Keep: keep},
+		{P: 0, Entry: e, Keep: keep, Boom: boomFor(k, e)}, {P: 0, Entry: e, Keep: keep},
 		{P: 1, Entry: o},
-		{P: 0, Entry: entries[(k+1)%len(entries)], Boom: booms[(k+1)%len(booms)]}, last,
+		{P: 0, Entry: e2, Keep: keep, Boom: boomFor(k+3, e2)}, {P: 0, Entry: e2, Keep: keep}, last,
+	}
+}
+
+// versionsHistory (file-based entries): the file of page 0 first holds the PLAIN version (page 2: no
+// marked element), is rendered, becomes unreadable (malformed front matter or removed; the render
+// fails), comes back with the full version and is rendered twice.
+func versionsHistory(k int) []Step {
+	e := entries[k%len(entries)]
+	bad := "break"
+	if k%2 == 1 {
+		bad = "remove"
+	}
+	return []Step{
+		{P: 0, Op: "put", Src: 2}, {P: 0, Entry: e},
+		{P: 0, Op: bad}, {P: 0, Entry: e},
+		{P: 0, Op: "put", Src: 0}, {P: 0, Entry: e}, {P: 0, Entry: e},
 	}
 }
 
@@ -2278,7 +2473,11 @@ func genCase(rec *ev.Rec, openRoot, openTail bool) func(t *rapid.T) Case {
 			fix(c.Comps[n])
 		}
 		// every page is rendered at least once, then arbitrary further steps
-		nSteps := rapid.IntRange(nPages, 8).Draw(t, "steps")
+		if rapid.IntRange(0, 2).Draw(t, "plain") == 0 {
+			// a PLAIN version (no marked element) that page files can be rewritten with
+			c.Pages = append(c.Pages, Page{Layout: c.Pages[0].Layout})
+		}
+		nSteps := rapid.IntRange(nPages, 9).Draw(t, "steps")
 		for i := 0; i < nSteps; i++ {
 			s := Step{P: i, Entry: rapid.SampledFrom(entries).Draw(t, "entry")}
 			if i >= nPages {
@@ -2291,8 +2490,18 @@ func genCase(rec *ev.Rec, openRoot, openTail bool) func(t *rapid.T) Case {
 				}
 				s.On = rapid.SampledFrom(on).Draw(t, "on")
 			}
+			if stringy(s.Entry) && s.On == "" && rapid.Bool().Draw(t, "keep") {
+				s.Keep = true
+			}
 			if rapid.IntRange(0, 3).Draw(t, "boom?") == 0 {
-				s.Boom = rapid.SampledFrom(booms).Draw(t, "boom")
+				s.Boom = boomFor(rapid.IntRange(0, len(booms)-1).Draw(t, "boom"), s.Entry)
+			}
+			if i >= nPages && rapid.IntRange(0, 6).Draw(t, "op?") == 0 {
+				// a site change instead of a render: another version of the page file, or a broken one
+				s = Step{P: s.P, Op: rapid.SampledFrom([]string{"put", "put", "break", "remove"}).Draw(t, "op")}
+				if s.Op == "put" {
+					s.Src = rapid.IntRange(0, len(c.Pages)-1).Draw(t, "src")
+				}
 			}
 			c.Steps = append(c.Steps, s)
 		}
@@ -2351,13 +2560,34 @@ enum:
 			case 3:
 				ks = []int{j % ne, (j + 5) % ne}
 			}
-			for _, k := range ks {
+			type hk struct {
+				k        int
+				versions bool
+			}
+			var hs []hk
+			for i, k := range ks {
+				// sites with several marked elements: the second history is the file-versions one when
+				// its entry reads the file
+				hs = append(hs, hk{k, len(fill) > 1 && i == 1 && fileBased(entries[k%ne])})
+			}
+			if len(fill) == 1 {
+				for k, e := range entries {
+					if fileBased(e) {
+						hs = append(hs, hk{k, true})
+					}
+				}
+			}
+			for _, h := range hs {
+				k := h.k
 				n++
 				if n%shards != shard {
 					continue
 				}
 				c := universe(fill, p)
 				c.Steps = historyFor(k, len(fill) > 1 && !run.Thorough())
+				if h.versions {
+					c.Steps = versionsHistory(k)
+				}
 				avoidKnown(rec, &c, openRoot, openTail)
 				nt, cls := classify(c)
 				if !run.Each(rec, "enum", c, nt, cls, check) {
